@@ -90,7 +90,7 @@ def levels(ctx):
                 for kind in (0, 7):
                   for metrics in (False, True):           # Cluster(metrics_enabled=True): bookkeeping must not change the decision's effect
                     for nids in (1, 4):                   # nids=1: every re-send on a host goes out on stream id 0
-                      sc = base(cl=cl0, metrics=metrics, nids=nids, script=[[dec, dcl], [dec, None], [1, None]])
+                      sc = base(cl=cl0, metrics=metrics, nids=nids, inline=bool(nids == 1 and metrics), script=[[dec, dcl], [dec, None], [1, None]])
                       obs, bad, run = run_ops(sc, [['start'], ['resp', 0, [3, kind, 10]], ['run', 0], ['resp', 1, [3, (kind + 1) % 9, 11]],
                                                    ['run', 0], ['resp', 2, [3, 2, 12]]])
                       items.append((sc, obs, bad, {'nontrivial': True, 'sample': len(items) == 9}))
